@@ -95,6 +95,34 @@ var funcLine = regexp.MustCompile(`^\s+([^\s(][^\s]*)\(\)\s*$`)
 // raceKey extracts a line-free key from the first report in text: the innermost Manticore
 // function of each of the two conflicting accesses. ok=false if no SUT frame is involved.
 func raceKey(text string) (key string, report string, ok bool) {
+	keys, reports := raceKeys(text)
+	if len(keys) == 0 {
+		return "", "", false
+	}
+	return keys[0], reports[0], true
+}
+
+// raceKeys returns the keys of all reports in text that involve SUT code.
+func raceKeys(text string) (keys []string, reports []string) {
+	parts := strings.Split(text, "==================")
+	for _, p := range parts {
+		if k, r, ok := raceKey1("==================" + p + "=================="); ok {
+			dup := false
+			for _, x := range keys {
+				if x == k {
+					dup = true
+				}
+			}
+			if !dup {
+				keys = append(keys, k)
+				reports = append(reports, r)
+			}
+		}
+	}
+	return
+}
+
+func raceKey1(text string) (key string, report string, ok bool) {
 	parts := strings.Split(text, "==================")
 	for _, p := range parts {
 		if !strings.Contains(p, "WARNING: DATA RACE") {
@@ -244,8 +272,8 @@ func main() {
 		after := raceLogSize()
 		if after > before && res.Violation == nil {
 			text := raceLogRead(before, after)
-			if key, rep, ok := raceKey(text); ok {
-				res.Violation = &hx.Violation{Class: "data_race", Key: key, Msg: rep}
+			if keys, reps := raceKeys(text); len(keys) > 0 {
+				res.Violation = &hx.Violation{Class: "data_race", Key: keys[0], Msg: reps[0], AltKeys: keys[1:]}
 			} else {
 				sum.RaceIgnored++
 			}
@@ -388,8 +416,14 @@ func doReplay(run runFn, path string, o hx.Opts, enc *json.Encoder, bw *bufio.Wr
 	res := run(rf.Seed, rf.Index, o)
 	after := raceLogSize()
 	if after > before && res.Violation == nil {
-		if key, rep, ok := raceKey(raceLogRead(before, after)); ok {
-			res.Violation = &hx.Violation{Class: "data_race", Key: key, Msg: rep}
+		if keys, reps := raceKeys(raceLogRead(before, after)); len(keys) > 0 {
+			res.Violation = &hx.Violation{Class: "data_race", Key: keys[0], Msg: reps[0], AltKeys: keys[1:]}
+			// a replay asks for one particular race: report it under that key if this run shows it at all
+			for i, k := range keys {
+				if k == rf.Key {
+					res.Violation.Key, res.Violation.Msg = k, reps[i]
+				}
+			}
 		}
 	}
 	enc.Encode(map[string]any{"kind": "replay", "run": res})
